@@ -1,11 +1,29 @@
 // Kani harnesses for src/internal/value.rs (child module `vk`)
 use super::*;
+
+pub fn stub_format(_args: core::fmt::Arguments<'_>) -> String {
+    String::new()
+}
+
+/// harness helper: take the Ok value of an io::Result without pulling the
+/// Debug/Drop machinery of io::Error into the model (unwrap() would)
+pub fn must<T>(r: std::io::Result<T>) -> T {
+    match r {
+        Ok(x) => x,
+        Err(e) => {
+            core::mem::forget(e);
+            assert!(false, "expected Ok");
+            kani::assume(false);
+            unreachable!()
+        }
+    }
+}
 use crate::internal::codepage::CodePage;
 
 fn sref(i: usize) -> StringRef {
     let b = [(i + 1) as u8, 0u8];
     let mut r: &[u8] = &b;
-    StringRef::read(&mut r, false).unwrap().unwrap()
+    must(StringRef::read(&mut r, false)).unwrap()
 }
 
 fn pick(k: u8) -> String {
@@ -18,6 +36,7 @@ fn pick(k: u8) -> String {
 
 // @harness name=valueref_create_remove kind=Bk tier=quick props=C08,C01 bound="pool grown from empty by at most 2 prior strings from {'a','b'}; value from {Null, any Int, '', 'a', 'b'}" desc="ValueRef::create pairs every string cell with exactly one pool reference and never leaves a live pool entry holding the empty string (the empty string is stored as the format's null); to_value reads the same value back ('' and null identified); remove returns the pool to its previous counts"
 #[kani::proof]
+#[kani::stub(alloc::fmt::format, stub_format)]
 #[kani::unwind(5)]
 fn valueref_create_remove() {
     let mut pool = StringPool::new(CodePage::Utf8);
